@@ -81,6 +81,12 @@ def build_leaf(e, dom):
             icov = I.ScalingOperator(I.DomainTuple.make(dom), e["c"], sampling_dtype=sdt)
         elif ic == "diag":
             icov = I.DiagonalOperator(mkfield(dom, e["diag"]), sampling_dtype=sdt)
+        elif ic == "csand":
+            # complex bun: chain of complex-linear operators (ScalingOperator / DiagonalOperator / dense matrix)
+            from . import _c11_cplx as C
+            bun = C.build_chain(e["bunops"], dom)
+            cheese = I.DiagonalOperator(mkfield(dom, e["diag"]), sampling_dtype=sdt)
+            icov = I.SandwichOperator.make(bun, cheese)
         elif ic == "sand":
             n = I.DomainTuple.make(dom).size
             A = np.array(e["bun"], dtype=np.float64)
@@ -169,6 +175,9 @@ def build(e, dom):
         else:
             m = fop(d, e["f"][""])
         return inner @ m
+    if k == "cmodel":
+        model, inner_e, inner_dom = split_model(e, dom)
+        return build(inner_e, inner_dom) @ model
     if k == "lin":
         A = np.array(e["A"], dtype=np.float64)
         src = I.UnstructuredDomain(A.shape[1])
@@ -203,6 +212,101 @@ def build(e, dom):
     return op
 
 
+def split_model(e, dom):
+    """wrapper `lh @ model` -> (model operator, inner spec, domain the inner energy is built on)"""
+    I = ift()
+    k = e["k"]
+    dd = I.DomainTuple.make(dom)
+    if k == "cmodel":
+        from . import _c11_cplx as C
+        from . import _c11_gen as G
+        chains = {key: C.build_chain(ops, dd) for key, ops in e["ops"].items()}
+        keys = sorted({kk for l in G.leaves(e["e"]) for kk in G.leaf_keys(l)})
+        for kk in keys:
+            if kk not in chains:
+                chains[kk] = C.build_chain([], dd)
+        tgt = chains[keys[0]].target
+        if keys == [""]:
+            return chains[""], e["e"], tgt[0] if len(tgt) == 1 else tgt
+        m = None
+        for kk in keys:
+            piece = I.FieldAdapter(chains[kk].target, kk).adjoint @ chains[kk] @ I.FieldAdapter(dd, kk)
+            m = piece if m is None else m + piece
+        return m, e["e"], tgt[0] if len(tgt) == 1 else tgt
+    if k == "chain":
+        inner = build(e["e"], dom)
+        d = inner.domain
+        if isinstance(d, I.MultiDomain):
+            m = None
+            for key in d.keys():
+                fa = I.FieldAdapter(d[key], key)
+                piece = fa.adjoint @ fop(d[key], e["f"].get(key, {"f": "id"})) @ fa
+                m = piece if m is None else m + piece
+        else:
+            m = fop(d, e["f"][""])
+        return m, e["e"], dom
+    if k == "vmodel":
+        from nifty.cl.operators.simple_linear_operators import DomainChangerAndReshaper
+        flat = I.DomainTuple.make(I.UnstructuredDomain(dd.size))
+        to_flat, back = DomainChangerAndReshaper(dd, flat), DomainChangerAndReshaper(flat, dd)
+        Ma = back @ I.MatrixProductOperator(flat, np.array(e["A"], dtype=np.float64)) @ to_flat
+        Mb = (back @ I.MatrixProductOperator(flat, np.array(e["B"], dtype=np.float64)) @ to_flat).ptw("exp")
+        model = I.FieldAdapter(dd, e["e"].get("kr", "a")).adjoint @ Ma + I.FieldAdapter(dd, e["e"].get("ki", "b")).adjoint @ Mb
+        return model, e["e"], dom
+    if k == "lin":
+        from nifty.cl.operators.simple_linear_operators import DomainChangerAndReshaper
+        A_ = np.array(e["A"], dtype=np.float64)
+        mp = I.MatrixProductOperator(I.UnstructuredDomain(A_.shape[1]), A_)
+        resh = DomainChangerAndReshaper(mp.target, dd) @ mp @ DomainChangerAndReshaper(dd, mp.domain)
+        if e["e"].get("key") is not None:
+            resh = resh @ I.FieldAdapter(dd, e["e"]["key"])
+        return resh, dict(e["e"], key=None), dom
+    raise Bad("split " + str(k))
+
+
+def parts_metric(e, dom, x):
+    """metric mechanism (4): the metric assembled from the parts with *forward* applications only —
+    J_modelᵀ · M_inner(model(x)) · J_model with the model's Jacobian probed by `times`, inner metrics from the bare
+    energies, c·M for scalings, sums embedded by key, + identity for the Hamiltonian.  Dense, in the real coordinates of x."""
+    I = ift()
+    k = e["k"]
+    lay = layout_of(x)
+    N = ndim(lay)
+    if k == "scale":
+        return e["c"] * parts_metric(e["e"], dom, x)
+    if k == "ham":
+        return parts_metric(e["e"], dom, x) + np.eye(N)
+    if k == "sum":
+        off, o = {}, 0
+        for kk, n, c in lay:
+            off[kk] = (o, n * (2 if c else 1))
+            o += n * (2 if c else 1)
+        tot = np.zeros((N, N))
+        for s in e["es"]:
+            ops = build(s, dom)
+            if isinstance(ops.domain, I.MultiDomain):
+                xs = x.extract(ops.domain)
+                idx = []
+                for kk in ops.domain.keys():
+                    idx += list(range(off[kk][0], off[kk][0] + off[kk][1]))
+            else:
+                xs, idx = x, list(range(N))
+            Ms = parts_metric(s, dom, xs)
+            tot[np.ix_(idx, idx)] += Ms
+        return tot
+    if k in ("cmodel", "chain", "vmodel", "lin"):
+        model, inner_e, inner_dom = split_model(e, dom)
+        lin = model(I.Linearization.make_var(x))
+        y = lin.val
+        ylay = layout_of(y)
+        J = dense(lin.jac, lay, ylay)[0]
+        Mi = parts_metric(inner_e, inner_dom, y)
+        return J.T @ Mi @ J
+    op = build(e, dom)
+    met = op(I.Linearization.make_var(x, want_metric=True)).metric
+    return dense(met, lay, lay)[0]
+
+
 # ------------------------------------------------------------------------------------------------
 # real-coordinate layout
 def layout_of(field):
@@ -211,6 +315,9 @@ def layout_of(field):
     if isinstance(field, I.MultiField):
         return [(k, field[k].size, bool(np.iscomplexobj(field[k].asnumpy()))) for k in field.domain.keys()]
     return [(None, field.size, bool(np.iscomplexobj(field.asnumpy())))]
+
+
+DROPPED = [0.0]    # largest imaginary part silently dropped on a real-typed key since the last reset (see measure)
 
 
 def flatten(field, layout=None):
@@ -224,6 +331,8 @@ def flatten(field, layout=None):
         if c:
             parts += [np.real(a).astype(np.float64), np.imag(a).astype(np.float64)]
         else:
+            if np.iscomplexobj(a) and a.size:
+                DROPPED[0] = max(DROPPED[0], float(np.max(np.abs(np.imag(a)))))
             parts.append(np.real(a).astype(np.float64))
     return np.concatenate(parts) if parts else np.zeros(0)
 
@@ -283,9 +392,25 @@ def measure(case, xflat=None, want_trafo=True):
     c2 = case if xflat is None else dict(case, x=list(xflat))
     x, lay = position(c2, op)
     lin = op(I.Linearization.make_var(x, want_metric=True))
+    DROPPED[0] = 0.0
     out = {"val": float(np.real(lin.val.asnumpy()[()])), "val_imag": float(np.imag(lin.val.asnumpy()[()])),
            "grad": flatten(lin.gradient, lay)}
+    out["grad_dropped_imag"] = DROPPED[0]
+    DROPPED[0] = 0.0
     out["met"] = None if lin.metric is None else dense(lin.metric, lay, lay)[0]
+    out["met_dropped_imag"] = DROPPED[0]
+    out["met_at"] = out["herm"] = None
+    if want_trafo and lin.metric is not None:
+        # sesquilinear form through NIFTy's own vdot on fields of the domain's own dtypes (deterministic vectors)
+        N = ndim(lay)
+        u = unflatten(np.cos(1.0 + 0.7 * np.arange(N)), op.domain, lay)
+        v = unflatten(np.sin(0.3 + 1.3 * np.arange(N)), op.domain, lay)
+        s1, s2 = u.s_vdot(lin.metric(v)), v.s_vdot(lin.metric(u))
+        out["herm"] = (complex(s1), complex(s2), complex(v.s_vdot(lin.metric(v))))
+    if want_trafo and hasattr(op, "get_metric_at"):
+        DROPPED[0] = 0.0
+        out["met_at"] = dense(op.get_metric_at(x), lay, lay)[0]
+        out["met_at_dropped_imag"] = DROPPED[0]
     out["tval"] = out["tjac"] = out["tlayout"] = out["tdtype"] = None
     if want_trafo and hasattr(op, "get_transformation"):
         tr = op.get_transformation()
